@@ -273,17 +273,18 @@ class SccContext:
       elif processed_caption is not None:
         processed_caption.append_text(" ")
 
-      self.current_color = color
+      # A color code turns italics off, an italics code keeps the current color
+      if font_style is None:
+        self.current_color = color
       self.current_font_style = font_style
       self.current_text_decoration = text_decoration
 
     else:
-      if color is not None:
+      # Every mid-row code sets or clears italics and underline
+      if font_style is None:
         self.current_color = color
-      if font_style is not None:
-        self.current_font_style = font_style
-      if text_decoration is not None:
-        self.current_text_decoration = text_decoration
+      self.current_font_style = font_style
+      self.current_text_decoration = text_decoration
 
       if processed_caption is not None:
         processed_caption.append_text(" ")
